@@ -664,7 +664,14 @@ func (p *Primary) getWALEntriesFromSequence(fromSequence uint64) ([]*wal.Entry, 
 	// Limit the number of entries to return to avoid overwhelming the network
 	maxEntriesToReturn := 100
 	if len(allEntries) > maxEntriesToReturn {
-		allEntries = allEntries[:maxEntriesToReturn]
+		// The operations of one transaction share a sequence number. Never cut a
+		// transaction in two: the replica resumes from the next sequence number
+		// and would never receive the rest of it
+		end := maxEntriesToReturn
+		for end < len(allEntries) && allEntries[end].SequenceNumber == allEntries[end-1].SequenceNumber {
+			end++
+		}
+		allEntries = allEntries[:end]
 		log.Info("Limited entries to %d for network efficiency", maxEntriesToReturn)
 	}
 
